@@ -46,21 +46,34 @@ __CPROVER_ensures(__CPROVER_old(*pi) < lb ==> (*pi == lb && __CPROVER_return_val
 ;
 
 /* ---- boundVector / boundFriction ------------------------------------------------------------
-   P(j)   : entry j of the friction vector before the call
-   NORM2  : the sum of squares exactly as the code accumulates it (left fold from 0)            */
+   P_OLD(a,j) : entry j of the friction vector before the call
+   fold2      : the sum of squares exactly as the code accumulates it (left fold from 0)
+   cone_post  : the whole functional postcondition in terms of the abstract field operations:
+                  inside  (norm2 <= L2):  Rolling, nothing changes
+                  outside (otherwise)  :  Sliding, pi' = s*pi with ONE common scale
+                                          s = sqrt(L2/norm2), 0 <= s <= 1                       */
 #define P_OLD(a, j)   __CPROVER_old(pi->d[(a)->d[j]])
-#define FOLD2(a, x0, x1, x2) ((a)->n == 0 ? 0.0 : (a)->n == 1 ? (0.0 + U_sq(x0)) : (a)->n == 2 ? ((0.0 + U_sq(x0)) + U_sq(x1)) : (((0.0 + U_sq(x0)) + U_sq(x1)) + U_sq(x2)))
-#define NORM2_OLD(a)  FOLD2(a, P_OLD(a,0), P_OLD(a,1), P_OLD(a,2))
-#define SCALE_BV      U_sqrt(U_div(U_sq(maxLen), NORM2_OLD(IV)))
+#define P_NEW(a, j)   (pi->d[(a)->d[j]])
+static inline Real fold2(unsigned n, Real x0, Real x1, Real x2)
+{ Real s = 0; if (n > 0) s += U_sq(x0); if (n > 1) s += U_sq(x1); if (n > 2) s += U_sq(x2); return s; }
+static inline _Bool cone_post(int ret, Real L2, unsigned n, Real p0, Real p1, Real p2, Real q0, Real q1, Real q2)
+{
+  Real norm2 = fold2(n, p0, p1, p2);
+  if (norm2 <= L2)
+    return ret == Rolling && (n < 1 || same_bits(q0, p0)) && (n < 2 || same_bits(q1, p1)) && (n < 3 || same_bits(q2, p2));
+  Real s = U_sqrt(U_div(L2, norm2));
+  return ret == Sliding && 0.0 <= s && s <= 1.0
+      && (n < 1 || same_bits(q0, U_mul(p0, s))) && (n < 2 || same_bits(q1, U_mul(p1, s))) && (n < 3 || same_bits(q2, U_mul(p2, s)));
+}
 #define ENTRIES_OK(a) (((a)->n < 1 || FINITE(pi->d[(a)->d[0]])) && ((a)->n < 2 || FINITE(pi->d[(a)->d[1]])) && ((a)->n < 3 || FINITE(pi->d[(a)->d[2]])))
 #define ENTRY_BIG(a,j) ((a)->n <= (j) || (-BIG <= pi->d[(a)->d[j]] && pi->d[(a)->d[j]] <= BIG))
 
 #ifdef SWEEP_GHOST
 /* ghost record used only where the contract is an ASSUMPTION for the caller (sweep unit): the
    friction entries seen by the call. Pure bookkeeping on ghost state, no constraint on real state. */
-extern Real g_pre[8][IDX_CAP];
-#define GHOST_ASSIGNS(a) , g_pre[(a)->ghost_id][0], g_pre[(a)->ghost_id][1], g_pre[(a)->ghost_id][2]
-#define GHOST_ENSURES(a) __CPROVER_ensures(g_pre[(a)->ghost_id][0] == P_OLD(a,0) && g_pre[(a)->ghost_id][1] == P_OLD(a,1) && g_pre[(a)->ghost_id][2] == P_OLD(a,2))
+extern Real g_pre[8][3];
+#define GHOST_ASSIGNS(a) ; g_pre[(a)->ghost_id][0], g_pre[(a)->ghost_id][1], g_pre[(a)->ghost_id][2]
+#define GHOST_ENSURES(a) __CPROVER_ensures(same_bits(g_pre[(a)->ghost_id][0], P_OLD(a,0)) && same_bits(g_pre[(a)->ghost_id][1], P_OLD(a,1)) && same_bits(g_pre[(a)->ghost_id][2], P_OLD(a,2)))
 #define GHOST_REQUIRES(a) __CPROVER_requires(0 <= (a)->ghost_id && (a)->ghost_id < 8)
 #else
 #define GHOST_ASSIGNS(a)
@@ -74,16 +87,10 @@ __CPROVER_requires(0 < pi->n && pi->n <= VEC_MAX && WF_VEC(pi, pi->n) && WF_IDX(
 __CPROVER_requires(maxLen >= 0 && ENTRIES_OK(IV) && 0 <= ghost_k && ghost_k < pi->n)
 GHOST_REQUIRES(IV)
 __CPROVER_assigns(IV->n > 0: pi->d[IV->d[0]]; IV->n > 1: pi->d[IV->d[1]]; IV->n > 2: pi->d[IV->d[2]] GHOST_ASSIGNS(IV))
-__CPROVER_ensures(__CPROVER_return_value == Rolling || __CPROVER_return_value == Sliding)
-/* condition code consistent: Rolling <=> already inside, i.e. ||pi[IV]||^2 <= maxLen^2 as computed */
-__CPROVER_ensures((__CPROVER_return_value == Rolling) == (NORM2_OLD(IV) <= U_sq(maxLen)))
-/* unchanged when already inside; nothing outside IV is ever touched */
-__CPROVER_ensures((__CPROVER_return_value == Rolling || !IN_IDX(IV, ghost_k)) ==> SAME(pi->d[ghost_k], __CPROVER_old(pi->d[ghost_k])))
-/* otherwise pi' = s*pi with ONE common scale s = sqrt(maxLen^2/||pi||^2), 0 <= s <= 1: direction kept, length not increased */
-__CPROVER_ensures(__CPROVER_return_value == Sliding ==> (0.0 <= SCALE_BV && SCALE_BV <= 1.0))
-__CPROVER_ensures((__CPROVER_return_value == Sliding && IV->n > 0) ==> pi->d[IV->d[0]] == U_mul(P_OLD(IV,0), SCALE_BV))
-__CPROVER_ensures((__CPROVER_return_value == Sliding && IV->n > 1) ==> pi->d[IV->d[1]] == U_mul(P_OLD(IV,1), SCALE_BV))
-__CPROVER_ensures((__CPROVER_return_value == Sliding && IV->n > 2) ==> pi->d[IV->d[2]] == U_mul(P_OLD(IV,2), SCALE_BV))
+/* condition code consistent (Rolling <=> already inside, as computed), unchanged when inside, else one common scale in [0,1] */
+__CPROVER_ensures(cone_post(__CPROVER_return_value, U_sq(maxLen), IV->n, P_OLD(IV,0), P_OLD(IV,1), P_OLD(IV,2), P_NEW(IV,0), P_NEW(IV,1), P_NEW(IV,2)))
+/* nothing outside IV is ever touched */
+__CPROVER_ensures(!IN_IDX(IV, ghost_k) ==> SAME(pi->d[ghost_k], __CPROVER_old(pi->d[ghost_k])))
 /* "oppose sliding": no component changes sign or grows */
 __CPROVER_ensures(__CPROVER_old(pi->d[ghost_k]) >= 0 ==> (0 <= pi->d[ghost_k] && pi->d[ghost_k] <= __CPROVER_old(pi->d[ghost_k])))
 __CPROVER_ensures(__CPROVER_old(pi->d[ghost_k]) <= 0 ==> (0 >= pi->d[ghost_k] && pi->d[ghost_k] >= __CPROVER_old(pi->d[ghost_k])))
@@ -93,9 +100,7 @@ GHOST_ENSURES(IV)
 ;
 
 #define N_OLD(j)      __CPROVER_old(pi->d[IN->d[j]])
-#define N2_OLD        FOLD2(IN, N_OLD(0), N_OLD(1), N_OLD(2))
-#define MU2N2         U_mul(U_mul(mu, mu), N2_OLD)
-#define SCALE_BF      U_sqrt(U_div(MU2N2, NORM2_OLD(IF)))
+#define MU2N2         U_mul(U_mul(mu, mu), fold2(IN->n, N_OLD(0), N_OLD(1), N_OLD(2)))
 enum FricCond boundFriction(Real mu, const struct IdxArray* IN, const struct IdxArray* IF, struct Vec* pi)
 __CPROVER_requires(__CPROVER_is_fresh(IN, sizeof(*IN)) && __CPROVER_is_fresh(IF, sizeof(*IF)) && __CPROVER_is_fresh(pi, sizeof(*pi)))
 __CPROVER_requires(0 < pi->n && pi->n <= VEC_MAX && WF_VEC(pi, pi->n) && WF_IDX(IN, pi->n) && WF_IDX(IF, pi->n) && SMALL(IN) && SMALL(IF) && DISTINCT(IF))
@@ -106,13 +111,8 @@ __CPROVER_requires(0 <= mu && mu <= BIG && ENTRIES_OK(IF) && 0 <= ghost_k && gho
 __CPROVER_requires(ENTRY_BIG(IN,0) && ENTRY_BIG(IN,1) && ENTRY_BIG(IN,2))
 GHOST_REQUIRES(IF)
 __CPROVER_assigns(IF->n > 0: pi->d[IF->d[0]]; IF->n > 1: pi->d[IF->d[1]]; IF->n > 2: pi->d[IF->d[2]] GHOST_ASSIGNS(IF))
-__CPROVER_ensures(__CPROVER_return_value == Rolling || __CPROVER_return_value == Sliding)
-__CPROVER_ensures((__CPROVER_return_value == Rolling) == (NORM2_OLD(IF) <= MU2N2))
-__CPROVER_ensures((__CPROVER_return_value == Rolling || !IN_IDX(IF, ghost_k)) ==> SAME(pi->d[ghost_k], __CPROVER_old(pi->d[ghost_k])))
-__CPROVER_ensures(__CPROVER_return_value == Sliding ==> (0.0 <= SCALE_BF && SCALE_BF <= 1.0))
-__CPROVER_ensures((__CPROVER_return_value == Sliding && IF->n > 0) ==> pi->d[IF->d[0]] == U_mul(P_OLD(IF,0), SCALE_BF))
-__CPROVER_ensures((__CPROVER_return_value == Sliding && IF->n > 1) ==> pi->d[IF->d[1]] == U_mul(P_OLD(IF,1), SCALE_BF))
-__CPROVER_ensures((__CPROVER_return_value == Sliding && IF->n > 2) ==> pi->d[IF->d[2]] == U_mul(P_OLD(IF,2), SCALE_BF))
+__CPROVER_ensures(cone_post(__CPROVER_return_value, MU2N2, IF->n, P_OLD(IF,0), P_OLD(IF,1), P_OLD(IF,2), P_NEW(IF,0), P_NEW(IF,1), P_NEW(IF,2)))
+__CPROVER_ensures(!IN_IDX(IF, ghost_k) ==> SAME(pi->d[ghost_k], __CPROVER_old(pi->d[ghost_k])))
 __CPROVER_ensures(__CPROVER_old(pi->d[ghost_k]) >= 0 ==> (0 <= pi->d[ghost_k] && pi->d[ghost_k] <= __CPROVER_old(pi->d[ghost_k])))
 __CPROVER_ensures(__CPROVER_old(pi->d[ghost_k]) <= 0 ==> (0 >= pi->d[ghost_k] && pi->d[ghost_k] >= __CPROVER_old(pi->d[ghost_k])))
 __CPROVER_ensures((P_OLD(IF,0) == 0 || IF->n < 1) && (P_OLD(IF,1) == 0 || IF->n < 2) && (P_OLD(IF,2) == 0 || IF->n < 3) ==> __CPROVER_return_value == Rolling)
@@ -127,7 +127,7 @@ __CPROVER_requires(0 <= row && row < A->m && 0 <= ghost_k && ghost_k < A->m)
 __CPROVER_assigns(pi->d[row])
 __CPROVER_ensures(ghost_k != row ==> SAME(pi->d[ghost_k], __CPROVER_old(pi->d[ghost_k])))
 /* returned squared error is the square of rhs[row]-rowSum, never negative */
-__CPROVER_ensures(__CPROVER_return_value == U_sq(rhs->d[row] - rowSum) || (__CPROVER_isnand(__CPROVER_return_value) && __CPROVER_isnand(U_sq(rhs->d[row] - rowSum))))
+__CPROVER_ensures(same_bits(__CPROVER_return_value, U_sq(rhs->d[row] - rowSum)))
 __CPROVER_ensures(NOTNAN(rhs->d[row] - rowSum) ==> __CPROVER_return_value >= 0)
 ;
 
